@@ -62,7 +62,7 @@ impl Scenario for Pairs {
     fn runs(&self, tier: Tier) -> u64 {
         match tier {
             Tier::Quick => 300000,
-            Tier::Thorough => 15000000,
+            Tier::Thorough => 30000000,
         }
     }
     fn declare(&self, cov: &mut Cov) {
@@ -395,7 +395,7 @@ impl Scenario for Dual {
     fn runs(&self, tier: Tier) -> u64 {
         match tier {
             Tier::Quick => 200000,
-            Tier::Thorough => 15000000,
+            Tier::Thorough => 30000000,
         }
     }
     fn declare(&self, cov: &mut Cov) {
